@@ -31,7 +31,7 @@ Tables(e) ==
       [] e = "HamiltonianCanonical" -> {"ham_verlet", "ham_plus_disp_entry"}
       [] e = "Isobaric" -> {"cell_iso", "cell_aniso_masked", "cell_shape_noscale", "cell_and_disp"}
       [] e = "Isotension" -> {"cell_aniso_stress", "cell_shape_masked"}
-      [] e = "GrandCanonical" -> {"exch_atomic", "exch_molecular", "exch_x2", "exch_plus_exch_bias", "exch_and_disp", "exch_default_label", "exch_default_label_zero", "same_move_two_names", "shared_exch_in_composite", "exch_and_coarse_disp"}
+      [] e = "GrandCanonical" -> {"exch_atomic", "exch_molecular", "exch_x2", "exch_plus_exch_bias", "exch_and_disp", "exch_default_label", "exch_default_label_zero", "same_move_two_names", "shared_exch_in_composite", "exch_and_coarse_disp", "exch_then_disp_one_trial"}
 
 \* the fields that influence the future
 Common == {"atoms", "rng", "step_count", "max_cycles", "move_table", "move_params", "operation_params", "criteria", "schedule_params"}
